@@ -2,7 +2,7 @@
 
 use crate::error::JsError;
 use crate::gc::Guard;
-use crate::interpreter::Interpreter;
+use crate::interpreter::{DEFAULT_NATIVE_STACK_BUDGET, Interpreter, NativeStackLimit};
 use crate::prelude::{FxHashSet, String, ToString, Vec, format, math};
 use crate::value::{ExoticObject, Guarded, JsObject, JsString, JsValue, PropertyKey};
 
@@ -75,7 +75,7 @@ pub fn init_json(interp: &mut Interpreter) {
 }
 
 pub fn json_stringify(
-    _interp: &mut Interpreter,
+    interp: &mut Interpreter,
     _this: JsValue,
     args: &[JsValue],
 ) -> Result<Guarded, JsError> {
@@ -91,7 +91,7 @@ pub fn json_stringify(
 
     // Track visited objects for circular reference detection
     let mut visited = FxHashSet::default();
-    let json = js_value_to_json_with_visited(&value, &mut visited)?;
+    let json = js_value_to_json_with_visited(&value, &mut visited, interp.native_stack_limit())?;
 
     let output = match indent {
         JsValue::Number(n) if n > 0.0 => {
@@ -174,13 +174,15 @@ pub fn json_parse(
 /// Convert a JsValue to JSON, with public API for external callers (without circular detection)
 pub fn js_value_to_json(value: &JsValue) -> Result<serde_json::Value, JsError> {
     let mut visited = FxHashSet::default();
-    js_value_to_json_with_visited(value, &mut visited)
+    let limit = NativeStackLimit::here(DEFAULT_NATIVE_STACK_BUDGET);
+    js_value_to_json_with_visited(value, &mut visited, limit)
 }
 
 /// Convert a JsValue to JSON, tracking visited objects for circular reference detection
 fn js_value_to_json_with_visited(
     value: &JsValue,
     visited: &mut FxHashSet<usize>,
+    limit: NativeStackLimit,
 ) -> Result<serde_json::Value, JsError> {
     Ok(match value {
         JsValue::Undefined => serde_json::Value::Null,
@@ -211,13 +213,16 @@ fn js_value_to_json_with_visited(
                 ));
             }
             visited.insert(obj_id);
+            // One native frame per nesting level: data nested too deeply is an error, not a
+            // native stack overflow
+            limit.check()?;
 
             let result = {
                 let obj_ref = obj.borrow();
                 if let Some(elements) = obj_ref.array_elements() {
                     let mut arr = Vec::with_capacity(elements.len());
                     for val in elements {
-                        arr.push(js_value_to_json_with_visited(val, visited)?);
+                        arr.push(js_value_to_json_with_visited(val, visited, limit)?);
                     }
                     serde_json::Value::Array(arr)
                 } else {
@@ -253,7 +258,7 @@ fn js_value_to_json_with_visited(
                             // Add forward mappings (name -> value)
                             for member in &data.members {
                                 let json_val =
-                                    js_value_to_json_with_visited(&member.value, visited)?;
+                                    js_value_to_json_with_visited(&member.value, visited, limit)?;
                                 map.insert(member.name.to_string(), json_val);
                             }
                             // Add reverse mappings (numeric value -> name)
@@ -287,7 +292,7 @@ fn js_value_to_json_with_visited(
                                 {
                                     continue;
                                 }
-                                let json_val = js_value_to_json_with_visited(&val, visited)?;
+                                let json_val = js_value_to_json_with_visited(&val, visited, limit)?;
                                 map.insert(key, json_val);
                             }
                             serde_json::Value::Object(map)
